@@ -597,6 +597,10 @@ def hierarchy_cases(tier, seed):
     for system in ("2x2", "2x3"):
         for sub in subsets(system, (2,)):
             yield {"sys": system, "kets": sub, "prior": "g0", "form": "col", "dim": "list", "level": 1, "pform": pform_for("g0", crc(sub))}
+            # ensembles that list a state twice (added after seeded change C12-11, which merged repeated states and summed their priors)
+            if crc(sub) % (4 if tier == "quick" else 1) == 0:
+                yield {"sys": system, "kets": [sub[0], sub[1], sub[0]], "prior": "ramp", "form": "col", "dim": "list", "level": 1, "pform": "list"}
+                yield {"sys": system, "kets": [sub[0], sub[0]], "prior": "g0", "form": "dm", "dim": "list", "level": 1 + crc(sub) % 2, "pform": "list"}
         for sub in subsets(system, (3,)):
             if crc(sub) % (16 if tier == "quick" else 2):
                 continue
